@@ -88,6 +88,12 @@ def build(spec: Dict[str, Any]):
         if validator:
             cls.meth = validator.validate(cls.meth)
         reg.view(cls, context='context' if m['view_ctx'] else None)
+    elif m['flavour'] == 'bound':
+        # a bound method of an ordinary handler object (not a view): the function is decorated in the class body, the BOUND method is
+        # registered - its instance parameter is no JSON-RPC parameter
+        ns['_validate'] = (validator or validators.BaseValidator()).validate
+        exec(f"class Service:\n    @_validate\n    def meth({', '.join(['self'] + parts)}):\n        {body}\n", ns)
+        reg.add(ns['Service']().meth, 'meth', context=ctx_name)
     else:
         exec(f"def meth({', '.join(parts)}):\n    {body}\n", ns)
         fn = validator.validate(ns['meth']) if validator else ns['meth']
@@ -121,6 +127,7 @@ def variants(params: List[Dict[str, Any]]) -> Iterator[Dict[str, Any]]:
     for excluded in (False, True, 'unannotated'):
         ps = list(params) + ([{'name': 'dep_inj', 'kind': 'KO', 'default': {'value': None}, 'excluded': True}] if excluded else [])
         yield {'params': ps, 'flavour': 'func', 'excluded': excluded, 'view_ctx': False}
+        yield {'params': ps, 'flavour': 'bound', 'excluded': excluded, 'view_ctx': False}
         if not excluded and all('default' in p for p in ps if p['kind'] == 'PK'):
             # python requires defaults after a defaulted positional-only parameter
             yield {'params': ps, 'flavour': 'func', 'excluded': excluded, 'view_ctx': False, 'posonly': True}
@@ -128,6 +135,7 @@ def variants(params: List[Dict[str, Any]]) -> Iterator[Dict[str, Any]]:
             cand = ps[:pos] + [{'name': 'ctx', 'kind': 'PK', 'ctx': True}] + ps[pos:]
             if hm.valid_order([{**p, 'default': {'value': 0}} if 'default' in p else p for p in cand]):
                 yield {'params': cand, 'flavour': 'func', 'excluded': excluded, 'view_ctx': False}
+                yield {'params': cand, 'flavour': 'bound', 'excluded': excluded, 'view_ctx': False}
                 if not excluded:
                     yield {'params': cand, 'flavour': 'func', 'excluded': excluded, 'view_ctx': False, 'twice': 'ctx-first'}
                     yield {'params': cand, 'flavour': 'func', 'excluded': excluded, 'view_ctx': False, 'twice': 'plain-first'}
@@ -182,7 +190,7 @@ class C17(Check):
         "view methods do not name a parameter after the view's context",
     ]
     trusted_base = ['python call binding (parameter lists are read off the generated signature spec)']
-    required_classes = ['flavour/func', 'flavour/view', 'ctx/name', 'ctx/view', 'excluded/yes', 'kind/KO', 'has-default', 'n=0', 'registered-twice', 'kind/positional-only-default']
+    required_classes = ['flavour/func', 'flavour/view', 'flavour/bound', 'ctx/name', 'ctx/view', 'excluded/yes', 'kind/KO', 'has-default', 'n=0', 'registered-twice', 'kind/positional-only-default']
 
     def _enum(self, maxn: int, shard: int = 0, nshards: int = 1):
         k = 0
